@@ -1345,6 +1345,13 @@ class VariantReach:
                         sub[i] = f
                 facts[l] = ("v", rv["variant"], sub)
             elif k == "use":
+                c = rv["x"].get("const") if isinstance(rv["x"], dict) else None
+                if c is not None and c.get("val") is not None:
+                    # a constant bool / integer (e.g. a helper's `return false`): a later switch on it takes one edge only
+                    try:
+                        dvals[l] = ("known", int(c["val"]))
+                    except (TypeError, ValueError):
+                        pass
                 f = self._op_fact(facts, rv["x"])
                 if f is not None:
                     facts[l] = f
